@@ -6,7 +6,8 @@
 (* replaced (public API: ruler.at) by a wrapper that logs one event per    *)
 (* invocation and delegates:                                               *)
 (*  ["c", name]                                   a core rule ran          *)
-(*  ["b", name, silent, res, start, end, line0, line1, nt0, nt1, lv0, lv1] *)
+(*  ["b", name, silent, res, start, end, line0, line1, nt0, nt1, lv0, lv1, *)
+(*        tableSame, ctxSame, parentTypeSame]                              *)
 (*  ["i", name, silent, res, pos0, pos1, pmax0, pmax1, nt0, nt1, pd0, pd1, *)
 (*        lv0, lv1]                                                        *)
 (* Clauses:                                                                *)
@@ -18,6 +19,11 @@
 (*  no_progress          a successful non-silent call advanced the cursor  *)
 (*  cursor_beyond_frame  ... and stayed inside its frame                   *)
 (*  level_not_restored   a rule call leaves state.level as it found it     *)
+(*  line_table_not_restored   a block rule call (successful or not) leaves *)
+(*                       bMarks/eMarks/tShift/sCount/bsCount as found:     *)
+(*                       containers rewrite them in place and restore them *)
+(*  block_context_not_restored   ... and blkIndent, listIndent             *)
+(*  parent_type_not_restored     ... and parentType (except: see below)    *)
 (*  posmax_not_restored  an inline rule leaves posMax as it found it       *)
 (*                       (link text is parsed with posMax shrunk)          *)
 (***************************************************************************)
@@ -38,6 +44,12 @@ BlockVerdict(e) ==
     ELSE IF res /\ ~silent /\ e[8] <= e[5] THEN "no_progress"
     ELSE IF res /\ ~silent /\ e[8] > e[6] THEN "cursor_beyond_frame"
     ELSE IF e[12] # e[11] THEN "level_not_restored"
+    ELSE IF e[13] # 1 THEN "line_table_not_restored"
+    ELSE IF e[14] # 1 THEN "block_context_not_restored"
+    \* named deviation: a FAILING lheading / reference leaves parentType = "paragraph" / "reference" behind (as
+    \* upstream does); the only reader of parentType (the list rule consulted as a terminator) always runs
+    \* under a rule that has set it first, so the leak is not observable
+    ELSE IF e[15] # 1 /\ ~(e[2] \in {"lheading", "reference"} /\ ~res) THEN "parent_type_not_restored"
     ELSE "ok"
 
 InlineVerdict(e) ==
